@@ -453,7 +453,7 @@ impl Engine for E5 {
 
     fn required_probes(focus: &str) -> &'static [&'static str] {
         match focus {
-            "C12" => &["lock_contended", "interleaved_batches", "concurrent_flush"],
+            "C12" => &["lock_contended", "interleaved_batches", "concurrent_flush", "stream_through_queuing"],
             "C13" => &["wide_utf8", "whitespace_edged", "max_size_datagram", "emsgsize", "nonblocking_eagain", "send_error_returned"],
             "C14" => &["concurrent_stats_updates", "stats_through_queuing", "dropped_counted", "stats_checked"],
             _ => &[],
@@ -511,6 +511,10 @@ impl Engine for E5 {
         };
         let queuing = match focus {
             "C14" => cfg.chance(1, 3),
+            // a queuing sink between the shared client and the buffered sink is still "one shared
+            // client into a buffered sink": acknowledged metrics must leave whole, once, in each
+            // thread's program order
+            "C12" => cfg.chance(1, 4),
             _ => false,
         };
         let nonblocking = cfg.chance(1, 2);
@@ -818,7 +822,7 @@ fn judge(case: &NetCase, obs: &Obs, end_tasks: &[TaskInfo], out: &mut Outcome, w
     }
 
     // ---- buffered sinks ----
-    if buffered && !case.queuing {
+    if buffered {
         let cap = case.cap.unwrap_or(512);
         let term = b"\n".to_vec();
         let writes: Vec<Attempt> = if socket_sink {
@@ -835,7 +839,7 @@ fn judge(case: &NetCase, obs: &Obs, end_tasks: &[TaskInfo], out: &mut Outcome, w
             obs.spy_wire.iter().map(|p| Attempt { payload: Some(p.clone()), ok: true, err: None, task: None }).collect()
         };
         let faulty = obs.ledger.iter().any(|r| r.result.is_err());
-        if case.tasks.len() == 1 && socket_sink {
+        if case.tasks.len() == 1 && socket_sink && !case.queuing {
             // single emitter: the sequential reference model applies (as in E2), labelled for C13
             let mut calls = Vec::new();
             for o in &obs.ops {
@@ -895,7 +899,10 @@ fn judge(case: &NetCase, obs: &Obs, end_tasks: &[TaskInfo], out: &mut Outcome, w
             let before = out.violations.len();
             let cons: &[&str] = if faulty { &["C07"] } else { &["C06", "C13"] };
             check_stream(cap, &term, &ms, &writes, final_ok, cons, out);
-            if case.tasks.len() > 1 {
+            if case.queuing {
+                out.probe("stream_through_queuing");
+            }
+            if case.tasks.len() > 1 || case.queuing {
                 // several emitters: whatever goes wrong here is about sharing the sink
                 for v in out.violations[before..].iter_mut() {
                     v.props = vec!["C12".to_string()];
@@ -915,7 +922,7 @@ fn judge(case: &NetCase, obs: &Obs, end_tasks: &[TaskInfo], out: &mut Outcome, w
         }
         // flush barrier: a metric whose emit had returned Ok before a flush was invoked must be in a
         // successful datagram by the time that flush returns Ok (C06 through a shared sink: C12)
-        if socket_sink && texts_unique && !faulty {
+        if socket_sink && texts_unique && !faulty && !case.queuing {
             for f in obs.ops.iter().filter(|o| (o.op == "flush" || o.op == "final-flush") && matches!(o.res, Res::Unit)) {
                 for e in emits.iter().filter(|e| matches!(e.res, Res::Ok(_)) && e.step_after <= f.step_before) {
                     let on_wire = obs.ledger.iter().any(|r| r.result.is_ok() && r.step <= f.step_after && find_sub(&r.payload, e.text.as_bytes()));
